@@ -23,15 +23,28 @@ def inline_private_model_helpers(fi: FunctionInfo) -> bool:
 
 
 def model_walk(repo: Repo, cls: str, method: str) -> Walker:
-    fi = repo.need_method(cls, method)
-    return Walker(repo, fi, self_class=cls, inline=inline_private_model_helpers)
+    key = ("model_walk", cls, method)
+    if key not in repo.memo:
+        fi = repo.need_method(cls, method)
+        repo.memo[key] = Walker(repo, fi, self_class=cls, inline=inline_private_model_helpers)
+    return repo.memo[key]
 
 
 def graph_walk(repo: Repo, cls: str, method: str) -> Walker:
-    fi = repo.need_method(cls, method)
-    return Walker(repo, fi, self_class=cls,
-                  inline=lambda f: f.name.startswith("_") and not f.name.startswith("__") and (
-                      f.cls in GRAPH_CLASSES or (f.cls is None and f.module.startswith(("opfython.subgraphs", "opfython.core")))))
+    key = ("graph_walk", cls, method)
+    if key not in repo.memo:
+        fi = repo.need_method(cls, method)
+        repo.memo[key] = Walker(repo, fi, self_class=cls,
+                                inline=lambda f: f.name.startswith("_") and not f.name.startswith("__") and (
+                                    f.cls in GRAPH_CLASSES or (f.cls is None and f.module.startswith(("opfython.subgraphs", "opfython.core")))))
+    return repo.memo[key]
+
+
+def get_effects(repo: Repo):
+    from .effects import Effects
+    if "effects" not in repo.memo:
+        repo.memo["effects"] = Effects(repo)
+    return repo.memo["effects"]
 
 
 def run_kinds(rep: Rep, w: Walker, prefix: str = "", rules=("K1", "K2", "K3", "K4", "K5")) -> dict:
@@ -69,7 +82,7 @@ def competitions_of(repo: Repo, cls: str, method: str, floor: int):
     return w, comps
 
 
-def check_model_premises(rep: Rep, repo: Repo, pre: str = "PREMISE-", node_fields=None) -> None:
+def check_model_premises(rep: Rep, repo: Repo, pre: str = "PREMISE-", node_fields=None, purity: bool = True) -> None:
     """Premises every model rule relies on (see rules_premise)."""
     from .rules_premise import check_constants, check_node_defaults, check_transparent_properties
 
@@ -78,6 +91,32 @@ def check_model_premises(rep: Rep, repo: Repo, pre: str = "PREMISE-", node_field
         raise AnalysisError(f"only {n} property accessors found (expected at least 70)")
     check_constants(rep, repo, pre)
     check_node_defaults(rep, repo, pre, fields=node_fields)
+    if purity:
+        check_metric_purity(rep, repo, pre)
+
+
+_EFFECTS_CACHE = {}
+
+
+def check_metric_purity(rep: Rep, repo: Repo, pre: str = "") -> None:
+    """The same pair of samples must get the same distance every time it is evaluated (spanning tree, competition,
+    k-nearest scans, predict): no metric and no decorator wrapper may write through its arguments, which are views
+    of the stored training features."""
+    eff = get_effects(repo)
+    fns = list(eff.registry_functions()) + [f for f in eff.funcs.values()
+                                              if ".<locals>." in f.name and f.module == "opfython.utils.decorator"]
+    n = 0
+    for fi in fns:
+        ws = eff.writes.get(fi.fq, {})
+        n += 1
+        if not ws:
+            rep.fn(pre + "PURE-metric", fi, f"{fi.qual} does not write through its arguments", True)
+        for p, hits in ws.items():
+            for ev, how in hits:
+                rep.ev(pre + "PURE-metric", ev, False, f"argument '{p}' of {fi.qual}: {how}; the stored features drift with "
+                       "every evaluation, so the same pair of samples gets different distances at different times")
+    if n < 40:
+        raise AnalysisError(f"only {n} metric functions found")
 
 
 def check_fresh_graph(rep: Rep, w: Walker, first_seq: int, pre: str = "") -> None:
@@ -122,3 +161,32 @@ def inline_same_module_private(fi: FunctionInfo):
 def walk_function_with_helpers(repo: Repo, module: str, name: str) -> Walker:
     fi = repo.need_function(module, name)
     return Walker(repo, fi, inline=inline_same_module_private(fi))
+
+
+LEARN_STATE_RULES = ("L3-snapshot", "L3-install", "L3-rebind", "L3-refit")
+
+
+def check_learn_state_premise(rep: Rep, repo: Repo, pre: str = "LEARN:") -> None:
+    """`learn()` is supervised training too: the model it leaves in the object must be one produced by `fit` whose
+    node features were not overwritten afterwards - the best snapshot is a DEEP copy (the exchange step rewrites the
+    rows the live forest's features are views of) and its whole state is installed on exit. Rules of C17 that decide
+    which iteration wins are not premises of the forest properties and are not re-evaluated here."""
+    from .core import Check
+    from .props import c17
+    tmp = Check("C17")
+    trep = Rep(tmp, repo)
+    try:
+        c17.check_learn(tmp, trep, repo)
+    except AnalysisError as exc:
+        rep.fn(pre + "analysis", repo.need_method("SupervisedOPF", "learn"), "C17 learn rule set", False,
+               f"could not be evaluated: {exc}")
+        return
+    n = 0
+    failed = False
+    for o in tmp.obligations:
+        if o.rule in LEARN_STATE_RULES:
+            n += 1
+            failed = failed or not o.ok
+            rep.chk.ob(pre + o.rule, o.function, o.construct, o.ok, o.detail, o.file, o.line)
+    if n < 3 and not failed:
+        raise AnalysisError(f"learn-state premise: only {n} obligations found")
